@@ -1259,3 +1259,90 @@ def _origins_place(body, place, passthru, seen, out, depth, pend=None):
             out.add(('other', 'discriminant'))
         else:
             out.add(('other', k))
+
+
+# ---------------------------------------------------------------------------------------------------------------
+# format_args! templates (core::fmt::Arguments::new(template, args)): the byte encoding documented in
+# library/core/src/fmt/mod.rs of the pinned nightly; used to read width / fill / flags of a placeholder.
+def _unescape_bytes(text):
+    m = re.match(r'^b"(.*)"$', text, re.S)
+    if not m:
+        return None
+    t = m.group(1)
+    out = bytearray()
+    i = 0
+    esc = {'n': 10, 't': 9, 'r': 13, '0': 0, '\\': 92, '"': 34, "'": 39}
+    while i < len(t):
+        c = t[i]
+        if c == '\\':
+            n = t[i + 1]
+            if n == 'x':
+                out.append(int(t[i + 2:i + 4], 16))
+                i += 4
+            elif n in esc:
+                out.append(esc[n])
+                i += 2
+            else:
+                return None
+        else:
+            out += c.encode('utf-8')
+            i += 1
+    return bytes(out)
+
+
+def decode_fmt_template(text):
+    """-> list of ('lit', str) / ('arg', dict(flags, fill, zero_pad, alternate, width, precision, arg_index)) or None when the
+    constant is not a well-formed template"""
+    b = _unescape_bytes(text)
+    if b is None:
+        return None
+    out = []
+    i = 0
+    try:
+        while True:
+            n = b[i]
+            i += 1
+            if n == 0:
+                return out if i == len(b) else None
+            if n < 0x80:
+                out.append(('lit', b[i:i + n].decode('utf-8')))
+                i += n
+            elif n == 0x80:
+                ln = b[i] | (b[i + 1] << 8)
+                out.append(('lit', b[i + 2:i + 2 + ln].decode('utf-8')))
+                i += 2 + ln
+            elif n >= 0xC0:
+                d = {'flags': None, 'fill': ' ', 'zero_pad': False, 'alternate': False, 'width': None, 'precision': None,
+                     'arg_index': None, 'width_indirect': bool(n & 16), 'precision_indirect': bool(n & 32)}
+                if n & 1:
+                    fl = int.from_bytes(b[i:i + 4], 'little')
+                    i += 4
+                    d['flags'] = fl
+                    d['fill'] = chr(fl & 0x1FFFFF)
+                    d['zero_pad'] = bool(fl & (1 << 24))
+                    d['alternate'] = bool(fl & (1 << 23))
+                if n & 2:
+                    d['width'] = b[i] | (b[i + 1] << 8)
+                    i += 2
+                if n & 4:
+                    d['precision'] = b[i] | (b[i + 1] << 8)
+                    i += 2
+                if n & 8:
+                    d['arg_index'] = b[i] | (b[i + 1] << 8)
+                    i += 2
+                out.append(('arg', d))
+            else:
+                return None
+    except (IndexError, UnicodeDecodeError):
+        return None
+
+
+def fmt_templates(body):
+    """decoded templates of every fmt::Arguments::new call in a body: [(call, decoded-or-None)]"""
+    res = []
+    for c in body.calls:
+        if re.search(r"fmt::Arguments::<'?\w*>::new$|fmt::Arguments::new$", c.target):
+            og = origins(body, c.args[0])
+            consts = [o[1] for o in og if o[0] == 'const']
+            res.append((c, decode_fmt_template(consts[0]) if len(consts) == 1 else None))
+    return res
